@@ -223,8 +223,8 @@ def via_persist(chain, A, hb, z, seg, acc):
     hist = [A[a] for a in chain] + [hb]
     worlds = []
     state = {'i': 0}
-    saved = lomond.persist.random
-    lomond.persist.random = lambda: 0.0
+    saved = env.HOOKS['random']
+    env.HOOKS['random'] = lambda: 0.0
 
     class Ex(object):
         n = 0
@@ -295,7 +295,7 @@ def via_persist(chain, A, hb, z, seg, acc):
         acc.inconclusive.append('persist chain raised %r' % (e,))
         return None, None, None
     finally:
-        lomond.persist.random = saved
+        env.HOOKS['random'] = saved
     acc.count2('oracle', 'persist_chains')
     if len(runs) != len(hist):
         acc.inconclusive.append('persist chain made %d attempts, expected %d' % (len(runs), len(hist)))
